@@ -248,6 +248,10 @@ def run(idx: ProgramIndex, rep: Report, tier: str, selftest: bool = True):
     if cg0 is None:
         raise AnalysisError("linear_cg not found")
     cg, inlined = inline_helpers(idx, cg0)
+    # `for ...: ... break ... else: warn` is the reached-flag idiom written with syntax: analysed in its flag form (on the copy)
+    from ..normalize import expand_loop_else
+
+    rep.analysed["loop_else_rewritten"] = expand_loop_else({cg0.module.name: ast.Module(body=[cg.node], type_ignores=[])})
     R = Roles(cg)
     rep.analysed["inlined_helpers"] = inlined
     rep.analysed["roles"] = R.table()
@@ -359,6 +363,8 @@ def run(idx: ProgramIndex, rep: Report, tier: str, selftest: bool = True):
     if not breaks:
         rep.bad("C08.X", Finding(PROP, "C08.X", F, "no break", "the CG loop has no early exit", cg0.loc()))
 
+    _rd_x: List[Optional[ReachingDefs]] = [None]
+
     def loop_controls(nid: int) -> Tuple[Set[str], List[str]]:
         names: Set[str] = set()
         labels = []
@@ -366,11 +372,61 @@ def run(idx: ProgramIndex, rep: Report, tier: str, selftest: bool = True):
             if _inside(loop_ast, t.ast):
                 names |= reads(t.ast)
                 labels.append(t.label[:50])
+        # flags computed earlier in the iteration (converged = bool(norm < tolerance)) count through their definitions
+        try:
+            if _rd_x[0] is None:
+                _rd_x[0] = ReachingDefs(cg, reads=value_reads)
+            names = names | _rd_x[0].closure(nid, names)
+        except Exception:
+            pass
         return names, labels
+
+    def tolerance_holds_at(nid: int) -> bool:
+        """Some test that controls the node guarantees - on the branch that leads to the node, whichever disjunct made it take
+        that branch - that a value computed from the residual norm is below the tolerance (names computed earlier in the
+        iteration count through their single definition).  Being on the OTHER branch of the tolerance test does not count."""
+        from ..conds import test_guarantees
+
+        def resolve(name: str) -> Optional[ast.AST]:
+            defs_ = [n.ast.value for n in cfg.stmt_nodes() if n.kind == "stmt" and isinstance(n.ast, ast.Assign) and len(n.ast.targets) == 1
+                     and isinstance(n.ast.targets[0], ast.Name) and n.ast.targets[0].id == name and _inside(loop_ast, n.ast)]
+            if len(defs_) == 1 and isinstance(defs_[0], (ast.BoolOp, ast.UnaryOp, ast.Compare, ast.Call)) and (
+                    not isinstance(defs_[0], ast.Call) or dotted(defs_[0].func) == "bool"):
+                return defs_[0]
+            return None
+
+        def below_tolerance(lit) -> bool:
+            e, pol = lit
+            if isinstance(e, ast.Compare) and len(e.ops) == 1:
+                l_, r_, op = e.left, e.comparators[0], e.ops[0]
+                lt = isinstance(op, (ast.Lt, ast.LtE))
+                gt = isinstance(op, (ast.Gt, ast.GtE))
+                if not (lt or gt):
+                    return False
+                small, big = (l_, r_) if lt == pol else (r_, l_)  # (a < b) true / (a >= b) false: a is the smaller side
+                return R.residual_norm in reads(small) and "tolerance" in reads(big)
+            parts = _cmp_parts(e)
+            if parts is not None and pol:
+                return R.residual_norm in reads(parts[0]) and "tolerance" in reads(parts[1])
+            return False
+
+        for t in controlling_tests(cfg, nid):
+            if not _inside(loop_ast, t.ast):
+                continue
+            pol = cfg.branch_taken(t.id, nid)
+            if pol is not None and test_guarantees(t.ast, pol, below_tolerance, resolve):
+                return True
+        return False
 
     has_tridiag = "n_tridiag" in cg0.params()
     for b in breaks:
         names, labels = loop_controls(b.id)
+        if "tolerance" in names and R.residual_norm in names and not tolerance_holds_at(b.id):
+            rep.bad("C08.X", Finding(PROP, "C08.X", F, "break on a branch that does not establish the tolerance",
+                                     "an early exit of the CG loop lies on a branch on which `residual norm < tolerance` is not "
+                                     f"guaranteed (controlled by: {'; '.join(labels)}): the iteration can stop early without having "
+                                     "converged", cg0.loc(b.ast)))
+            continue
         if has_tridiag and "tolerance" in names and "n_tridiag" not in names:
             # flags computed earlier in the iteration (keep_going = n_tridiag and k < ...) count through their definitions
             try:
@@ -398,7 +454,7 @@ def run(idx: ProgramIndex, rep: Report, tier: str, selftest: bool = True):
                 isinstance(t, ast.Name) and t.id == R.reached for t in n.ast.targets)
                 and isinstance(n.ast.value, ast.Constant) and n.ast.value.value is True]:
             names, labels = loop_controls(s_.id)
-            if "tolerance" in names and R.residual_norm in names:
+            if "tolerance" in names and R.residual_norm in names and tolerance_holds_at(s_.id):
                 rep.ok("C08.X", {"reached_flag": R.reached, "set_under": labels})
             else:
                 rep.bad("C08.X", Finding(PROP, "C08.X", F, "tolerance-reached flag = True",
